@@ -74,6 +74,7 @@ class Model:
         self.gen = {e: 0 for e in ELEMS}  # 0 = uninitialised
         self.clamped = {e: False for e in ELEMS}
         self.stepped = {e: None for e in STATEFUL}  # (spare, congest, pidx, next_clamp, {dep: (gen, clamped)})
+        self.attempted = {e: False for e in STATEFUL}  # a failed step attempt since the last successful step
         self._g = 0
 
     def in_net(self, e):
@@ -88,15 +89,20 @@ class Model:
         if k == "init":
             return self.in_net(op[1])
         if k == "step":
-            e = op[1]
-            return self.in_net(e) and all(self.gen[x] > 0 for x in deps(e, self.spare, self.congest))
+            return self.in_net(op[1])
         if k == "spare":
             return not self.spare
         if k == "congest":
             return not self.congest
         return True
 
+    def will_fail(self, op):
+        """A per-element step whose element or one of whose neighbours is uninitialised cannot be executed: the
+        library raises, and that failed attempt must leave no trace (the element still counts as not stepped)."""
+        return op[0] == "step" and not all(self.gen[x] > 0 for x in deps(op[1], self.spare, self.congest))
+
     def _record(self, e, pidx, nxt):
+        self.attempted[e] = False
         self.stepped[e] = (self.spare, self.congest, pidx, nxt,
                            {x: (self.gen[x], self.clamped[x]) for x in deps(e, self.spare, self.congest)})
 
@@ -141,7 +147,7 @@ class Model:
         return "function", ""
 
     def key(self):
-        k = [self.spare, self.congest]
+        k = [self.spare, self.congest, tuple(sorted(self.attempted.items()))]
         for e in ELEMS:
             k.append((self.gen[e] > 0, self.clamped[e]))
         for e in STATEFUL:
@@ -222,6 +228,14 @@ def run_history(hist, sym, st: Stats):
         if not model.enabled(op):
             return None, None
         st.inc("transitions")
+        if model.will_fail(op):
+            try:
+                real_apply(net, obj, eng, op)
+            except Exception:  # noqa: BLE001
+                st.inc("failed_steps_executed")
+                model.attempted[op[1]] = True
+                continue  # expected: the attempt fails and must leave no trace in what to_function sees
+            return None, None  # the library executed it after all: outside the model, history dropped
         try:
             real_apply(net, obj, eng, op)
         except Exception as e:  # noqa: BLE001
@@ -284,6 +298,100 @@ def run_history(hist, sym, st: Stats):
                                              f"{sorted(x_ for x_, (g, c) in info[4].items() if c)}) gives {y!r}"))
                             break
     return problems, model
+
+
+# ---------------------------------------------------------------------------------------
+# a second, minimal family: ramp -> one link -> free destination.  Short histories reach states in which
+# a per-element step was ATTEMPTED and failed (its neighbour was not initialised yet)
+# ---------------------------------------------------------------------------------------
+MINI_OPS = [("init", "L"), ("init", "O"), ("step", "L"), ("step", "O"), ("netstep",)]
+MINI_DEPS = {"L": ("L", "O"), "O": ("O", "L")}
+
+
+def run_mini(hist, sym, st: Stats):
+    a, b = M.Node(name="a"), M.Node(name="b")
+    objs = {"L": M.Link(2, 2, 1.0, 180.0, 33.5, 102.0, 1.867, name="L"), "O": M.MeteredOnRamp(2000.0, name="O")}
+    net = M.Network(name="mini").add_path((a, objs["L"], b), origin=objs["O"], destination=M.Destination(name="D"))
+    eng = env.casadi_engine(sym)
+    gen = {"L": 0, "O": 0}
+    stepped = {"L": None, "O": None}
+    g = 0
+    problems = []
+    for op in hist:
+        st.inc("transitions")
+        k = op[0]
+        if k == "init":
+            objs[op[1]].init_vars(engine=eng)
+            g += 1
+            gen[op[1]] = g
+        elif k == "step":
+            e = op[1]
+            fails = not all(gen[x] > 0 for x in MINI_DEPS[e])
+            try:
+                objs[e].step(net=net, engine=eng, **P_SETS[0])
+                ok = True
+            except Exception:  # noqa: BLE001
+                ok = False
+            if fails and ok:
+                return None  # outside the model
+            if not fails and not ok:
+                problems.append(("C19/op-exception/step", f"{op} raised although everything it reads is initialised"))
+                return problems
+            if ok:
+                stepped[e] = {x: gen[x] for x in MINI_DEPS[e]}
+            else:
+                st.inc("failed_steps_executed")
+        else:
+            net.step(engine=eng, **P_SETS[0])
+            for e in ("L", "O"):
+                g += 1
+                gen[e] = g
+            for e in ("L", "O"):
+                stepped[e] = {x: gen[x] for x in MINI_DEPS[e]}
+    why = ""
+    for e in ("L", "O"):
+        if gen[e] == 0:
+            why = f"{e} not initialised"
+        elif stepped[e] is None:
+            why = f"{e} not stepped (at most attempted)"
+        elif any(gen[x] != v for x, v in stepped[e].items()):
+            why = f"{e} stale"
+        if why:
+            break
+    st.inc("executions")
+    try:
+        F = eng.to_function(net, compact=0)
+        got = "function"
+    except RuntimeError:
+        got = "raise"
+    except Exception as e:  # noqa: BLE001
+        problems.append((f"C19/wrong-exception/{type(e).__name__}", f"to_function raised {exc_text(e)} (model: {why or 'ready'})"))
+        return problems
+    st.outcome(("mini", bool(why), got))
+    if why and got == "function":
+        problems.append((f"C19/function-returned/{why.split()[1]}/{'free' if F.get_free() else 'nofree'}",
+                         f"{sym}: to_function returned {F} although {why}"))
+    elif not why and got == "raise":
+        problems.append(("C19/unexpected-raise", f"{sym}: to_function raised although both elements are initialised and stepped"))
+    elif not why and F.get_free():
+        problems.append(("C19/free-symbols", f"{sym}: free symbols {F.get_free()}"))
+    elif not why and (F.n_out() != 3 or F.nnz_in() != 7):
+        problems.append(("C19/incomplete-function", f"{sym}: function {F} does not have 3 results / 7 scalar inputs"))
+    return problems
+
+
+def worker_mini(item):
+    first, length, sym = item
+    st = Stats()
+    for rest in itertools.product(MINI_OPS, repeat=length - 1):
+        hist = (first,) + rest
+        problems = run_mini(hist, sym, st)
+        if problems is None:
+            continue
+        st.inc("states")
+        for sig, msg in problems:
+            st.violation(sig, f"mini-network history {hist}: {msg}", {"history": hist, "sym": sym, "family": "mini"})
+    return st
 
 
 def worker_unmerged(item):
@@ -363,13 +471,17 @@ def explore(tier, seed, nproc):
             r = run_shards(worker_unmerged, [([f], k, sym) for f in firsts], nproc)
             per_len[f"{sym}:{k}"] = r.c.get("states", 0)
             st.merge(r)
+    kmini = 5 if tier == "quick" else 7
+    for sym in ("SX", "MX"):
+        for k in range(1, kmini + 1):
+            st.merge(run_shards(worker_mini, [(f, k, sym) for f in MINI_OPS], nproc))
     merged = {}
     for sym in ("SX", "MX"):
         n, levels, done = explore_merged(dmax, sym, nproc, st)
         merged[sym] = {"distinct_model_states": n, "new_states_per_level": levels, "depth_completed": done}
         st.inc("states", n)
     cov = {"operations": len(OPS), "unmerged_history_length_completed": kmax, "unmerged_histories": per_len,
-           "merged_bfs": merged,
+           "merged_bfs": merged, "mini_family": {"operations": len(MINI_OPS), "history_length_completed": kmini},
            "rule": "every history over the 16 operations up to the length (those using a disabled operation are dropped and "
                    "counted), replayed on fresh real objects, to_function observed in the reached state; plus BFS with states "
                    "merged on the model key"}
@@ -389,6 +501,9 @@ def _detuple(x):
 def replay(case):
     st = Stats()
     hist = tuple(_detuple(op) for op in case["history"])
+    if case.get("family") == "mini":
+        problems = run_mini(hist, case["sym"], st) or []
+        return [f"mini-network history ({case['sym']}): {hist}"] + [f"  {s}: {m}" for s, m in problems], bool(problems)
     problems, model = run_history(hist, case["sym"], st)
     lines = [f"history ({case['sym']}):"] + [f"   {op}" for op in hist]
     if problems is None:
